@@ -2917,7 +2917,7 @@ template< size_t L>
 {
    if ((pos >= mLength) || (count == 0))
       return std::string();
-   if ((count == std::string::npos) || (pos + count >= mLength))
+   if (count > mLength - pos)
       count = mLength - pos;
    return std::string( &mString[ pos], count);
 } // FixedString< L>::substr
@@ -2928,7 +2928,7 @@ template< size_t L>
 {
    if ((pos >= mLength) || (dest == nullptr))
       return 0;
-   if (pos + count >= mLength)
+   if (count > mLength - pos)
       count = mLength - pos;
    std::memcpy( dest, &mString[ pos], count);
    return count;
